@@ -6,6 +6,9 @@ written to coq/gen/ScopeCfg.v (token level, rustlex).
                (as shipped the jump is emitted first, so the pops are dead code: class break_dead_pops)
   vm.rs        fn unwind_stack    : is `close_upvalues(..)` called before `stack.truncate(..)`?
                (as shipped it is not: class unwind_leaves_open_upvalue)
+  vm.rs        fn jump_finally_impl : is `close_upvalues(..)` called before `stack.truncate(..)`? (`return` inside a try block;
+               as shipped it was not: class return_in_try_leaves_open_upvalue; not part of the mini-language, used by
+               the trace replay and as a side condition)
   compiler.rs  fn try_statement   : does the catch clause start with an `emit_byte(OpCode::PopExcHandler ..)`?
                (as shipped it does: C08 class catch_pops_outer; the model needs it only to emit the same bytes)
   vm.rs        fn capture_upvalue : walk predicate `v > loc_addr`, reuse predicate `v == loc_addr`
@@ -67,6 +70,11 @@ def facts():
     if it < 0:
         unknown.append("unwind_stack: truncate not found")
     f["unwind_closes_upvalues"] = 0 <= ic < it
+    j = fn_body(vm, "jump_finally_impl")
+    jt, jc = first(j, "truncate"), first(j, "close_upvalues")
+    if jt < 0:
+        unknown.append("jump_finally_impl: truncate not found")
+    f["jump_finally_closes_upvalues"] = 0 <= jc < jt
     t = fn_body(comp, "try_statement")
     ih = -1
     for i in range(len(t) - 2):
@@ -113,6 +121,7 @@ def gen_scopecfg(man):
         "Definition break_pops_first : bool := %s." % b(f["break_pops_first"]),
         "Definition unwind_closes_upvalues : bool := %s." % b(f["unwind_closes_upvalues"]),
         "Definition catch_pops_handler : bool := %s." % b(f["catch_pops_handler"]),
+        "Definition jump_finally_closes_upvalues : bool := %s." % b(f["jump_finally_closes_upvalues"]),
         "Definition c06_unknown_shapes : list string := [%s]." % "; ".join(q(s) for s in unknown),
         "Definition shapes_known : bool := match c06_unknown_shapes with [] => true | _ => false end.", ""])
 
